@@ -1198,7 +1198,7 @@ pub fn run(seed: u64, family: &str, keep_dump: bool) -> RunResult {
     }
     for j in 0..cfg.n_reps {
         let fault = if cfg.faults && rng.pct(50) {
-            Some(Fault { op: *rng.pick(&[Op::Ready, Op::Start, Op::Flush, Op::Flush]), nth: rng.below(4) as u32 })
+            Some(Fault { op: *rng.pick(&[Op::Ready, Op::Start, Op::Flush, Op::Flush, Op::Close]), nth: rng.below(4) as u32 })
         } else {
             None
         };
